@@ -160,6 +160,8 @@ def gen(seed, thorough=False):
             plan.append({'site': 'channel', 'ident': lf, 'a': 'stall',
                          'pos': rng.randint(0, 60), 'dt': rng.choice([0.005, 2.0, 45.0])})
     knobs = {'pipe_capacity': rng.choice([16, 64, 512, 4096, 65536])}
+    if rng.random() < 0.3:
+        knobs['defaults_split'] = rng.randint(0, 99)
     return {'property': ID, 'seed': seed, 'world': world, 'plan': _ws.order_plan(plan),
             'opt': opt, 'sched': {'prng': seed}, 'knobs': knobs}
 
